@@ -4665,7 +4665,10 @@ class PyCdlib:
         self._seek_to_extent(child.extent_location())
         with inode.InodeOpenData(child.inode, self.logical_block_size) as (data_fp, data_len):
             utils.copy_data(data_len, self.logical_block_size, data_fp, self._cdfp)
-            utils.zero_pad(self._cdfp, data_len, self.logical_block_size)
+            # Unlike when writing a new ISO, the rest of the last extent still
+            # holds the tail of the old contents, so really overwrite it with
+            # zeros instead of just seeking over it.
+            self._cdfp.write(b'\x00' * (-data_len % self.logical_block_size))
 
         # Finally write out the directory record entry.
         # This is a little tricky because of what things mean.  First of all,
